@@ -183,8 +183,8 @@ var hostdoms = []string{"a.b.test", "a", "a.c.test", "ab.test", "A.b.test"}
 // (the list contains pairs in which one pattern is what a glob-to-regexp translation of the other looks like: a* / a.* , a? / a.)
 var globs = []string{"*", "a*", "*.test", "a.?.test", "a.b.test", "?", "*.b.*", "a.b.tes", "*a*b*", "??????", "A.*", "*.test*", "a.b.test?", "", "a.*", "a?", "a.", "a.*test"}
 var nets = [][2]string{{"1.2.0.0", "255.255.0.0"}, {"1.2.3.4", "255.255.255.255"}, {"0.0.0.0", "0.0.0.0"}, {"10.0.0.0", "255.0.0.0"}, {"1.2.3.5", "255.255.255.254"}, {"9.9.9.0", "255.255.255.0"}, {"1.2.3.4", "255.0.255.0"}}
-var cidrs = []string{"1.2.0.0/16", "1.2.3.4/32", "0.0.0.0/0", "::/0", "::1/128", "2001:db8::/32", "10.0.0.0/8", "1.2.3.9/24", "::ffff:1.2.0.0/112", "garbage", "1.2.3.4"}
-var ipsForEx = []string{"1.2.3.4", "::1", "2001:db8::5", "10.9.8.7", "a.b.test", "999.1.1.1", ""}
+var cidrs = []string{"1.2.0.0/16", "1.2.3.4/32", "0.0.0.0/0", "::/0", "::1/128", "2001:db8::/32", "10.0.0.0/8", "1.2.3.9/24", "::ffff:1.2.0.0/112", "garbage", "1.2.3.4", "10.0.0.0/08", "::ffff:10.0.0.0/104", "1.2.3.4/032"}
+var ipsForEx = []string{"1.2.3.4", "::1", "2001:db8::5", "10.9.8.7", "a.b.test", "999.1.1.1", "", "::ffff:10.9.8.7", "::ffff:102:304", "0:0:0:0:0:0:0:1"}
 var iplists = []string{"1.2.3.4", "10.0.0.1;1.2.3.4", "2001:db8::2;10.0.0.1;2001:db8::1;9.9.9.9", "1.2.3.4;;::1", " 3.3.3.3 ; 2.2.2.2 ", "1.2.3.4;nope", "", "::ffff:1.2.3.4;1.2.3.3", "10.0.0.10;10.0.0.9;10.0.0.100"}
 
 type helperCase struct {
